@@ -282,6 +282,7 @@ func c12Run(t *testing.T, cfg c12Config) c12Outcome {
 			d.Close()
 			ln.Close()
 			w.ServerTr.Close()
+			w.CloseEndpoints()
 		}
 		if err != nil {
 			fail("dial:"+sim.ErrClass(err), "Dial failed: %v", err)
